@@ -228,6 +228,23 @@ def check_misc(case):
     # tensor of several factors at once
     c = build(case["bad"])
     C = mat_of(case["bad"])
+    # the same laws through diagrams of tensor boxes: whiskering on either
+    # side, the tensor of two boxes drawn both ways round (interchange law)
+    sc = case["bad"]
+    boxc = tensor.Box("g", Dim(*sc["dom"]), Dim(*sc["cod"]),
+                      specs.cplx(sc["vals"], list(sc["dom"] + sc["cod"])))
+    idc, ida = np.eye(size(sc["dom"])), np.eye(size(sa["dom"]))
+    same((box @ tensor.Id(boxc.dom)).eval(), np.kron(A, idc),
+         "diagram-whisker-right", "{} @ Id({})".format(box, boxc.dom))
+    same((tensor.Id(boxc.dom) @ box).eval(), np.kron(idc, A),
+         "diagram-whisker-left", "Id({}) @ {}".format(boxc.dom, box))
+    same((box @ boxc).eval(), np.kron(A, C), "diagram-tensor-is-kron",
+         "{} @ {}".format(box, boxc))
+    same((tensor.Id(box.dom) @ boxc >> box @ tensor.Id(boxc.cod)).eval(),
+         np.kron(A, C), "diagram-interchange-law",
+         "{} @ {}".format(box, boxc))
+    same((boxc @ box @ boxc).eval(), np.kron(np.kron(C, A), C),
+         "diagram-tensor-is-kron", "{} @ {} @ {}".format(boxc, box, boxc))
     same(a.tensor(b, c), np.kron(np.kron(A, B), C), "tensor-variadic")
     same(Tensor.id(Dim(1)).tensor(a, b, c), np.kron(np.kron(A, B), C),
          "tensor-variadic-from-unit")
